@@ -1463,6 +1463,81 @@ def rule_best_path_moves(ctx, m):
         ctx.sample({'back-tracker': fn, 'shifts (D, C, A-B)': shifts})
 
 
+def _is_marker_test(c, cur_match):
+    """c compares the current cell with the corridor marker -1."""
+    for x in walk_expr(c):
+        if x[0] == 'bin' and x[1] in ('==', '!=') and ((x[3] == ('num', -1) and cur_match(x[2])) or (x[2] == ('num', -1) and cur_match(x[3]))):
+            return True
+    return False
+
+
+def rule_best_path_markers(ctx, m):
+    """With end relaxation (psi_1e / psi_2e) the writers mark the cells between the matrix corner and the true end of the best path with -1 (a straight
+    run in the last column or the last row).  A back-tracker that knows the marker (it skips marked cells when recording the path) must also follow
+    the marked run: choosing the smallest of the three predecessors from a marked cell can step diagonally past the end cell, and the returned path
+    then does not end on the last row / column and does not realise the distance."""
+    # Python
+    pm = m.py('dtaidistance.dtw')
+    f = pm.funcs.get('best_path')
+    if f is None:
+        raise AnalysisError('anchor vanished: dtw.best_path')
+    loops = [s for s in f.body if s.k == 'while']
+    if not loops:
+        raise AnalysisError('unrecognised shape: dtw.best_path without a while loop')
+    cur_py = lambda e: e[0] == 'idx' and e[1] == ('var', 'paths') and fmt(e[2]) in ('(i, j)',)
+    knows = any(_is_marker_test(s.cond, cur_py) for s in walk_stmts(f.body) if s.k == 'if')
+
+    def guarded(stmts, under):
+        """-> True iff every move selection (call of argm / argmin / argmax) lies under a marker test."""
+        ok = True
+        for s in stmts:
+            if s.k == 'if':
+                u = under or _is_marker_test(s.cond, cur_py)
+                ok = guarded(s.then, u) and guarded(s.els, u) and ok
+            elif s.k == 'assign' and any(x[0] == 'call' and (dotted(x[1]) or '') in ('argm', 'argmin', 'argmax', 'np.argmin', 'np.argmax') for x in walk_expr(s.value)):
+                ok = ok and under
+            else:
+                for b in sub_blocks(s):
+                    ok = guarded(b, under) and ok
+        return ok
+    if knows:
+        ctx.check(guarded(loops[0].body, False), 'R-PSI', pm.path, 'best_path', 'marked end run',
+                  'best_path skips cells marked -1 when recording the path, but selects its next move by argmin of the three predecessors also when standing on a marked cell: '
+                  'it can leave the marked run diagonally and miss the end cell of the best path (the returned path does not end on the last row/column and its cost differs from the distance)',
+                  loops[0].line, facts={'witness': {'psi': '(0, 2, 0, 0)', 's1': [0.44, 0.33, 1.49, -0.21, 0.31], 's2': [-0.85, -2.55, 0.65, 0.86, -0.74, 2.27, -1.45, 0.05]}})
+    else:
+        ctx.held('R-PSI', 'dtw.best_path does not interpret markers')
+    # C
+    cur_c = lambda e: e[0] == 'idx' and e[1] == ('var', 'wps') and fmt(e[2]).replace('(', '').replace(')', '') == 'ri_width + wpsi'
+    for fn in ('dtw_best_path', 'dtw_best_path_customstart', 'dtw_best_path_isclose', 'dtw_best_path_prob'):
+        cf = m.cfunc(fn)
+        if cf is None:
+            raise AnalysisError('anchor vanished: C function %s' % fn)
+        wl = [s for s in cf.body if s.k == 'while']
+        knows = any(_is_marker_test(s.cond, cur_c) for s in walk_stmts(cf.body) if s.k == 'if')
+        if not knows:
+            ctx.held('R-PSI', '%s does not interpret markers' % fn)
+            continue
+        okall = True
+        for lp in wl:
+            # the move chain: an if (not the marker test itself) that updates the position; it must sit under a marker test or after a marker block ending in continue
+            under = False
+            ok = True
+            for s in lp.body:
+                if s.k == 'if' and _is_marker_test(s.cond, cur_c):
+                    if any(t.k == 'continue' for t in s.then):
+                        under = True
+                    elif any(t.k == 'assign' and t.target in (('var', 'rip'), ('var', 'cip')) for t in walk_stmts(s.els)):
+                        under = True          # moves live in the else branch of the marker test
+                    continue
+                if s.k == 'if' and any(t.k == 'assign' and t.target in (('var', 'rip'), ('var', 'cip')) for t in walk_stmts([s])):
+                    ok = ok and under
+            okall = okall and ok
+        ctx.check(okall, 'R-PSI', cf.file, fn, 'marked end run',
+                  '%s skips cells marked -1 when recording the path, but chooses its next move from the three predecessors also when standing on a marked cell: it can leave the '
+                  'marked run diagonally and miss the end cell of the best path' % fn, cf.line)
+
+
 def rule_best_path_prob_moves(ctx, m):
     """dtw_best_path_prob (sampled back-tracking, used by DBA with nb_prob_samples): in each region loop the three candidates
     probs[0] (diagonal), probs[1] (left), probs[2] (up) are read at the positions that the writer's layout shift of that region dictates, and the
